@@ -13,6 +13,8 @@ Decided:
     successful add on queue object q, should_notify on q must follow and on its true edge Transport::notify(k)
     with k = the index q was constructed with, before the entry point returns or polls q for completion.
  N4 wait loops: no completion poll (can_pop/peek_used) on q while a submission on q is still un-notified.
+ N5 every queue a driver can suppress interrupts on can be re-enabled (enable/disable siblings cover the same queues).
+ N6 each queue is constructed with event_idx = contains(negotiated, EVENT_IDX) (C08.H3, bit 29).
 Not decided: device-side liveness.
 """
 from .common import *
